@@ -49,6 +49,15 @@ def actions(rng, spec, na, procs, blockable, sources, handlers=()):
     return out
 
 
+def fail_during_maint(rng, procs):
+    """A failure that hits a machine while it is shut down for maintenance (direct shutdown or work order)."""
+    P = rng.choice(procs)
+    t = rng.choice([1, 2, 3, 4.5, 6])
+    how = rng.choice(['maint', 'wo'])
+    first = [t, rng.choice(PRIOS), 'maint', P, rng.choice([1, 2.75])] if how == 'maint' else [t, rng.choice(PRIOS), 'wo', P]
+    return [first, [t + rng.choice([0, 0.25, 0.5, 1]), rng.choice(PRIOS), 'fail', P, rng.choice([0, 0, 0.25])]]
+
+
 def finish(rng, spec, profile, big=False):
     spec['tb'] = [rng.choice(TB), rng.randrange(10 ** 6)]
     spec['T'] = pick_T(rng, big)
@@ -310,6 +319,8 @@ def gen_contention(rng):
             spec['actions'].append([t, pr, 'restore', rng.choice(ps)])
         else:
             spec['actions'].append([t, pr, 'block', rng.choice(ps), rng.random() < 0.5])
+    if rng.random() < 0.35:
+        spec['actions'] += fail_during_maint(rng, ps)
     spec = finish(rng, spec, 'contention')
     spec['T'] = [rng.choice([8, 15, 30])]
     return spec
@@ -372,8 +383,8 @@ def gen_interrupt(rng):
         spec['res']['r0'] = rng.choice([1, 1, 2])
     ns = rng.choice([1, 1, 2])
     for i in range(ns):
-        devs.append({'k': 'S', 'n': f'S{i}', 'c': rng.choice([0.25, 0.5, 1, 1.5]), 'budget': rng.choice([INF, 9, 20]),
-                     'batch': None, 'val': rng.choice([0, 1])})
+        devs.append({'k': 'S', 'n': f'S{i}', 'c': rng.choice([0.25, 0.5, 1, 1.5, 3]),
+                     'budget': rng.choice([INF, 9, 20, 2, 3, 5]), 'batch': None, 'val': rng.choice([0, 1])})
     prev = [f'S{i}' for i in range(ns)]
     if rng.random() < 0.4:
         devs.append({'k': 'B', 'n': 'B0', 'c': 0, 'cap': rng.choice([1, 2, INF]), 'up': prev})
@@ -414,6 +425,11 @@ def gen_interrupt(rng):
             acts.append([t, pr, 'offset', rng.choice(procs + handlers), rng.choice([-5, -0.5, 0.25, 1, 2])])
         elif spec['res']:
             acts.append([t, pr, 'addres', 'r0', rng.choice([-1, 1])])
+    if procs and rng.random() < 0.35:
+        acts += fail_during_maint(rng, procs)
+    srcs = names_of(spec, 'S')
+    for _ in range(rng.choice([0, 0, 1, 2])):
+        acts.append([rng.choice(TIMES), rng.choice(PRIOS), 'adjust', rng.choice(srcs), rng.choice([-1, 1, 2, 3])])
     spec['actions'] = acts
     return finish(rng, spec, 'interrupt')
 
